@@ -346,43 +346,55 @@ pub fn run_probe(index: Arc<Index>, threads: &[COp], h: usize, s: usize) -> Opti
         Err(()) => {}
     }
     let mut o_released_blocked = !gate_broken;
-    // h to its end
+    // h to its end. While o is released-but-waiting, an event of o can overtake the event of h's
+    // *last* action (h leaves the gate at its return, before its `Done` is sent): that is
+    // legitimate. If h shows up at another yield point after o moved, h was still inside.
     while !done[h] {
         let _ = resume[h].send(());
-        match rx_ev.recv_timeout(long) {
-            Ok((j, Ev::At(tag))) => {
-                at[j] = Some(tag);
-                out.sched.push(j);
-                if j == o {
-                    // o got in while h was still inside
-                    gate_broken = true;
-                    o_released_blocked = false;
-                    // the event we are waiting for (h's) is still to come
-                    match rx_ev.recv_timeout(long) {
-                        Ok((k, Ev::At(t2))) => {
-                            at[k] = Some(t2);
-                            out.sched.push(k);
-                        }
-                        Ok((k, Ev::Done(r))) => {
-                            done[k] = true;
-                            out.results[k] = r;
-                            out.sched.push(k);
-                        }
-                        Err(_) => {
-                            out.deadlock = Some("holder stuck".into());
-                            return Some((out, gate_broken));
+        let mut o_early = false;
+        loop {
+            match rx_ev.recv_timeout(long) {
+                Ok((j, ev)) if j == h => {
+                    let h_done = matches!(ev, Ev::Done(_));
+                    match ev {
+                        Ev::At(tag) => at[h] = Some(tag),
+                        Ev::Done(r) => {
+                            done[h] = true;
+                            out.results[h] = r;
                         }
                     }
+                    if o_early {
+                        if h_done {
+                            // h's last action really came first
+                            let last = out.sched.pop().unwrap();
+                            out.sched.push(h);
+                            out.sched.push(last);
+                        } else {
+                            gate_broken = true;
+                            out.sched.push(h);
+                        }
+                    } else {
+                        out.sched.push(h);
+                    }
+                    break;
                 }
-            }
-            Ok((j, Ev::Done(r))) => {
-                done[j] = true;
-                out.results[j] = r;
-                out.sched.push(j);
-            }
-            Err(_) => {
-                out.deadlock = Some("holder stuck".into());
-                return Some((out, gate_broken));
+                Ok((j, ev)) => {
+                    // o moved
+                    o_early = true;
+                    o_released_blocked = false;
+                    match ev {
+                        Ev::At(tag) => at[j] = Some(tag),
+                        Ev::Done(r) => {
+                            done[j] = true;
+                            out.results[j] = r;
+                        }
+                    }
+                    out.sched.push(j);
+                }
+                Err(_) => {
+                    out.deadlock = Some("holder stuck".into());
+                    return Some((out, gate_broken));
+                }
             }
         }
     }
